@@ -135,6 +135,59 @@ def subst(t, fn):
     return go(t)
 
 
+def free_bvs(t, level):
+    """Indices i of the free occurrences of ('bv', level, i) in t.  A lam whose own binder level is
+    `level` is a closed term created in another context: everything inside it is bound."""
+    out: list = []
+    seen = set()
+    stack = [t]
+    while stack:
+        x = stack.pop()
+        if not isinstance(x, tuple) or id(x) in seen:
+            continue
+        seen.add(id(x))
+        if x and x[0] == "bv":
+            if x[1] == level and x[2] not in out:
+                out.append(x[2])
+            continue
+        if x and x[0] == "lam" and len(x) > 3 and x[3] == level:
+            continue
+        stack.extend(reversed(x))
+    return out
+
+
+def subst_free(t, level, fn):
+    """Like subst, but does not descend into lams that re-bind `level` (capture-avoiding for the
+    de Bruijn-level representation)."""
+    memo: dict = {}
+
+    def go(t):
+        if not isinstance(t, tuple):
+            return t
+        if t and t[0] == "lam" and len(t) > 3 and t[3] == level:
+            return t
+        k = id(t)
+        if k in memo:
+            return memo[k][1]
+        changed = False
+        items = []
+        for x in t:
+            y = go(x)
+            if y is not x:
+                changed = True
+            items.append(y)
+        new = tuple(items) if changed else t
+        if new and isinstance(new[0], str):
+            if changed:
+                new = renorm(new)
+            r = fn(new)
+            if r is not None:
+                new = r
+        memo[k] = (t, new)
+        return new
+    return go(t)
+
+
 def renorm(t):
     """Re-canonicalise the head node after its children changed."""
     tag = t[0]
@@ -416,7 +469,7 @@ def proj(t, k: int):
 
 def proj_fn(fn, k):
     if fn[0] == "lam":
-        return ("lam", fn[1], proj(fn[2], k))
+        return ("lam", fn[1], proj(fn[2], k)) + tuple(fn[3:])
     return None
 
 
@@ -702,6 +755,7 @@ class Interp:
         self.self_fields: dict | None = None  # when evaluating a constructor
         self.last_env = None
         self.path: list = []
+        self.break_as_flag = False
         self.cond_effects: list = []
 
     # ---------------------------------------------------------------- entry points
@@ -848,7 +902,7 @@ class Interp:
             finally:
                 self.depth -= 1
                 self.inline_depth -= 1
-            return ("lam", len(names), body)
+            return ("lam", len(names), body, d)
         if isinstance(v, BoundMethod):
             return ("attr", v.self_term, v.name)
         if isinstance(v, Partial):
@@ -980,7 +1034,11 @@ class Interp:
         elif isinstance(st, ast.While):
             for n in assigned_names(st.body):
                 env.set(n, ("unknown", f"while-loop variable {n}"))
-        elif isinstance(st, (ast.Break, ast.Continue)):
+        elif isinstance(st, ast.Break):
+            if not self.break_as_flag:
+                raise _Break()
+            env.set("__break__", TRUE)
+        elif isinstance(st, ast.Continue):
             raise _Break()
         elif isinstance(st, ast.Try):
             for n in assigned_names(st.body):
@@ -1010,6 +1068,26 @@ class Interp:
                         env.set(name, ("list", cur[1] + (("star", v),)))
                 else:
                     env.set(name, ("call", ("ext", f"list.{e.func.attr}"), (cur, v), ()))
+                return
+        if isinstance(e, ast.Call) and isinstance(e.func, ast.Attribute) and e.func.attr in ("append", "extend") \
+                and isinstance(e.func.value, ast.Subscript) and isinstance(e.func.value.value, ast.Name) and len(e.args) == 1:
+            name = e.func.value.value.id
+            cur = env.get(name)
+            k = self.ev(e.func.value.slice, env, ctx)
+            v = self.ev(e.args[0], env, ctx)
+            if isinstance(cur, tuple):
+                if cur[0] == "dict" and is_const(k) and any(kk == k for kk, _ in cur[1]):
+                    items = []
+                    for kk, vv in cur[1]:
+                        if kk == k:
+                            if vv[0] == "list" and e.func.attr == "append":
+                                vv = ("list", vv[1] + (v,))
+                            else:
+                                vv = ("call", ("ext", f"list.{e.func.attr}"), (vv, v), ())
+                        items.append((kk, vv))
+                    env.set(name, ("dict", tuple(items)))
+                else:
+                    env.set(name, ("call", ("ext", f"dict.list.{e.func.attr}"), (cur, k, v), ()))
                 return
         v = self.ev_any(e, env, ctx)
         self.effects.append(v)
@@ -1103,12 +1181,8 @@ class Interp:
         # dependency graph among carried variables
         deps = []
         for v in new_vals:
-            ds = []
-            for s in walk(v):
-                if s[0] == "bv" and s[1] == d and s[2] >= 1 and (s[2] - 1) not in ds:
-                    ds.append(s[2] - 1)
-            deps.append(ds)
-        # loops whose body only guards (raise) produce guard records
+            deps.append([i2 - 1 for i2 in free_bvs(v, d) if i2 >= 1])
+        init_vals = [self.as_term(env.get(n)) for n in carried]  # snapshot before any rebinding
         for i, n in enumerate(carried):
             order = [i]
             j = 0
@@ -1123,9 +1197,9 @@ class Interp:
                 if t[0] == "bv" and t[1] == d and t[2] in ren:
                     return ("bv", d, ren[t[2]])
                 return None
-            bodies = tuple(subst(new_vals[j], rn) for j in order)
-            lam = ("lam", 1 + len(order), ("tuple", bodies))
-            inits = tuple(self.as_term(env.get(carried[j])) for j in order)
+            bodies = tuple(subst_free(new_vals[j], d, rn) for j in order)
+            lam = ("lam", 1 + len(order), ("tuple", bodies), d)
+            inits = tuple(init_vals[j] for j in order)
             env.set(n, ("fold", it, lam, ("tuple", inits)))
         for n in local_only:
             env.set(n, ("unknown", f"loop-local {n} used after loop"))
@@ -1280,8 +1354,8 @@ class Interp:
             src = it
             if conds:
                 cond = conds[0] if len(conds) == 1 else ("and", tuple(conds))
-                src = ("filter", ("lam", 1, cond), it)
-            lam = ("lam", 1, body)
+                src = ("filter", ("lam", 1, cond, d), it)
+            lam = ("lam", 1, body, d)
             if not conds and it[0] in ("tuple", "list") and not any(x[0] == "star" for x in it[1]):
                 # comprehension over a literal sequence: expand elementwise
                 return ("list", tuple(self.beta(lam, [x]) for x in it[1]))
@@ -1294,16 +1368,19 @@ class Interp:
         if lam[0] != "lam":
             return ("call", lam, tuple(args), ())
         # find the level of this lam's parameters: they are the bvs with the minimal level
-        levels = [s[1] for s in walk(lam[2]) if s[0] == "bv"]
-        if not levels:
-            return lam[2]
-        lvl = min(levels)
+        if len(lam) > 3:
+            lvl = lam[3]
+        else:
+            levels = [s[1] for s in walk(lam[2]) if s[0] == "bv"]
+            if not levels:
+                return lam[2]
+            lvl = min(levels)
 
         def rn(t):
             if t[0] == "bv" and t[1] == lvl and t[2] < len(args):
                 return args[t[2]]
             return None
-        return subst(lam[2], rn)
+        return subst_free(lam[2], lvl, rn)
 
     def attr(self, obj, name, ctx):
         if obj[0] == "ext":
@@ -1564,11 +1641,7 @@ class Interp:
         n = len(leaves_init)
         deps = []
         for v in leaves_new:
-            ds = []
-            for s in walk(v):
-                if s[0] == "bv" and s[1] == d and s[2] >= 1 and (s[2] - 1) not in ds:
-                    ds.append(s[2] - 1)
-            deps.append(ds)
+            deps.append([i2 - 1 for i2 in free_bvs(v, d) if i2 >= 1])
         folds = []
         for i in range(n):
             order = [i]
@@ -1584,8 +1657,8 @@ class Interp:
                 if t[0] == "bv" and t[1] == d and t[2] in ren:
                     return ("bv", d, ren[t[2]])
                 return None
-            bodies = tuple(subst(leaves_new[j], rn) for j in order)
-            lam = ("lam", 1 + len(order), ("tuple", bodies))
+            bodies = tuple(subst_free(leaves_new[j], d, rn) for j in order)
+            lam = ("lam", 1 + len(order), ("tuple", bodies), d)
             folds.append(("fold", it, lam, ("tuple", tuple(leaves_init[j] for j in order))))
         pos = [0]
 
@@ -1595,7 +1668,7 @@ class Interp:
             pos[0] += 1
             return folds[pos[0] - 1]
         final = rebuild(init)
-        return ("tuple", (final, ("scan_ys", it, ("lam", 1 + n, ys), init)))
+        return ("tuple", (final, ("scan_ys", it, ("lam", 1 + n, ys, d), init)))
 
 
 CMP = {ast.Eq: "==", ast.NotEq: "!=", ast.Lt: "<", ast.LtE: "<=", ast.Gt: ">", ast.GtE: ">=",
